@@ -25,6 +25,9 @@ type C16Case struct {
 
 type c16prop struct{ base }
 
+// c16scale generates the scale scenarios for C16.
+var c16scale = &histProp{scale: scaleAll, weights: HWeights{ParseNil: 1, Probe: 1}}
+
 func (p *c16prop) Plan(tier string, seed int64) []core.Segment {
 	m := tierScale(tier, 40)
 	segs := []core.Segment{{Kind: "corpus:accept", N: 3000}, {Kind: "accept", N: 50000 * m}}
@@ -38,7 +41,10 @@ func (p *c16prop) Plan(tier string, seed int64) []core.Segment {
 			lg = 2
 		}
 		segs = append(segs, core.Segment{Kind: "corpus:hist:" + t, N: 300}, core.Segment{Kind: "hist:" + t, N: n * m},
-			core.Segment{Kind: "mid:" + t, N: n / 4 * m}, core.Segment{Kind: "large:" + t, N: lg * tierScale(tier, 10), Chunk: 1})
+			core.Segment{Kind: "mid:" + t, N: n / 4 * m}, core.Segment{Kind: "large:" + t, N: lg * tierScale(tier, 10), Chunk: 1},
+			// the scale scenarios of the parser histories (scale.go): blocks and
+			// buffers of megabytes, hundreds of calls of one kind in a row
+			core.Segment{Kind: "scale:" + t, N: int64(len(scaleAll)) * tierScale(tier, 4), Chunk: 1})
 	}
 	return segs
 }
@@ -206,7 +212,11 @@ func (p *c16prop) Gen(kind string, idx int64, seed int64, tier string) core.Case
 		w := HWeights{Write: 16, ReadFrom: 12, Parse: 26, ParseNTL: 10, ParseNil: 8, Shrink: 12, Reset: 2, ResetData: 6, Probe: 8, WParse: 8, Faults: true}
 		var c gen.Cfg
 		var pc PCase
-		if class == "large" {
+		if class == "scale" {
+			pc = c16scale.genScale(r, typ, idx, gen.Opts{})
+			pc.Cfg.TameBig()
+			c = pc.Cfg
+		} else if class == "large" {
 			// buffers beyond 64 KiB and the zero (default) configuration,
 			// refilled by readers that offer more than 64 KiB at once
 			c = gen.SmallCfg(r, typ, gen.Opts{})
